@@ -870,6 +870,18 @@ static const char *kv (char **tok, int n, const char *key)
 }
 
 #define UMAX 600
+static int uq_m;
+static const char *uq_c;
+static int uq_compar (void *x, void *y)
+{
+  int a, b;
+  char r;
+  memcpy (&a, x, 4);
+  memcpy (&b, y, 4);
+  r = uq_c[a * uq_m + b];
+  return r == '-' ? -1 : r == '+' ? 1 : 0;
+}
+
 static int unit_cmd (char *line)
 {
   static char copy[70000];
@@ -1087,6 +1099,52 @@ static int unit_cmd (char *line)
             }
           vh_out ("sw %d %s", k2, nent[k2] ? out : "-");
         }
+      return 1;
+    }
+  if (!strcmp (tok[0], "uqsort"))
+    {
+      /* uqsort sz=<4|8|10> m=<domain> v=<values in 0..m-1> c=<m*m characters - 0 +, row major: compar (x, y)>
+         the real quickSort (lib/misc/qsort.c) on elements of sz bytes: an int value followed by sz-4 bytes that all
+         hold the element's original position; the comparison function is the table (it need not be an order) */
+      static long long v[UMAX];
+      int nv = csv_ints (kv (tok, n, "v"), v, UMAX);
+      int sz = atoi (kv (tok, n, "sz")), m = atoi (kv (tok, n, "m"));
+      const char *c = kv (tok, n, "c");
+      char out[8000];
+      size_t o = 0;
+      if ((sz != 4 && sz != 8 && sz != 10) || m < 1 || m > 30 || (int) strlen (c) != m * m || nv > 250)
+        return 0;
+      for (int i = 0; i < nv; i++)
+        if (v[i] < 0 || v[i] >= m)
+          return 0;
+      uq_m = m;
+      uq_c = c;
+      /* the block is exactly nv * sz bytes: ASan reports any access outside it */
+      unsigned char *blk = (unsigned char *) malloc (nv * sz ? nv * sz : 1);
+      for (int i = 0; i < nv; i++)
+        {
+          int val = (int) v[i];
+          memcpy (blk + i * sz, &val, 4);
+          memset (blk + i * sz + 4, i, sz - 4);
+        }
+      quickSort (blk, nv, sz, uq_compar);
+      out[0] = 0;
+      for (int i = 0; i < nv; i++)
+        {
+          int val, torn = 0;
+          memcpy (&val, blk + i * sz, 4);
+          for (int k2 = 5; k2 < sz; k2++)
+            if (blk[i * sz + k2] != blk[i * sz + 4])
+              torn = 1;
+          if (torn)
+            o += snprintf (out + o, sizeof out - o, "%storn", i ? "," : "");
+          else if (sz > 4)
+            o += snprintf (out + o, sizeof out - o, "%s%d:%d", i ? "," : "", val, blk[i * sz + 4]);
+          else
+            o += snprintf (out + o, sizeof out - o, "%s%d", i ? "," : "", val);
+        }
+      vh_out ("qs %s", nv ? out : "-");
+      free (blk);
       return 1;
     }
   if (!strcmp (tok[0], "utimes") && n == 4)
